@@ -28,3 +28,6 @@ func FuzzBurnCodec(f *testing.F)    { fuzzBurnCodec(f) }
 func TestC01(t *testing.T)         { RunC01(t) }
 func TestC01L2(t *testing.T)       { C01L2.Run(t) }
 func FuzzAttestation(f *testing.F) { fuzzAttestation(f) }
+func TestC17(t *testing.T)         { RunC17(t) }
+func TestC17Genesis(t *testing.T)  { RunC17Genesis(t) }
+func FuzzGenesisJSON(f *testing.F) { fuzzGenesisJSON(f) }
